@@ -27,6 +27,9 @@ const (
 	// with data glitches - bars whose prices and volume are all 0. Only C05 draws it: its oracle
 	// (count, alphabet, Hold through the warm-up) is indifferent to the NaN/Inf values that follow.
 	ShapeGlitch = NumShapes
+	// ShapeLateStart (also outside the generally drawn shapes): the first one to three bars have no
+	// quote yet (all zero), then a random walk. Drawn by C04, C05 and C13.
+	ShapeLateStart = NumShapes + 1
 )
 
 var shapeNames = []string{"walk", "flat", "up", "down", "saw", "ties", "tiny", "huge", "spiky", "halts", "steps", "micro", "glitch"}
@@ -46,7 +49,7 @@ func genSnapshots(n int, shape int, seed int64, start time.Time) []*asset.Snapsh
 	}
 	for i := 0; i < n; i++ {
 		switch shape {
-		case ShapeWalk, ShapeTiny, ShapeHuge, ShapeHalts, ShapeGlitch, ShapeSteps:
+		case ShapeWalk, ShapeTiny, ShapeHuge, ShapeHalts, ShapeGlitch, ShapeSteps, ShapeLateStart:
 			price *= 1 + 0.04*(rng.Float64()-0.5)
 		case ShapeFlat:
 		case ShapeMicro:
@@ -105,6 +108,9 @@ func genSnapshots(n int, shape int, seed int64, start time.Time) []*asset.Snapsh
 			c, o, h, l, vol = price, price, price, price, 0
 		}
 		if shape == ShapeGlitch && rng.Intn(7) == 0 {
+			c, o, h, l, vol = 0, 0, 0, 0, 0
+		}
+		if shape == ShapeLateStart && i <= int(seed%3) {
 			c, o, h, l, vol = 0, 0, 0, 0, 0
 		}
 		out[i] = &asset.Snapshot{
